@@ -9,6 +9,7 @@ package c13
 
 import (
 	"errors"
+	"sync"
 
 	"github.com/vmware/go-ipfix/pkg/intermediate"
 	"github.com/vmware/go-ipfix/pkg/registry"
@@ -99,4 +100,99 @@ func Check_Operations() {
 	}
 	sx.MonitorEnd()
 	sx.Reach("operation-done")
+}
+
+type outcome struct {
+	flows    int64
+	heapLen  int
+	ready    bool
+	filled   bool
+	srcDelta uint64
+	dstDelta uint64
+	srcTotal uint64
+	dstTotal uint64
+	exported int
+}
+
+func observe(a *intermediate.AggregationProcess, k agg.Key, exported int) outcome {
+	o := outcome{flows: a.GetNumFlows(), exported: exported}
+	items, _ := a.VerifSnapshot()
+	o.heapLen = len(items)
+	if fr, ok := a.VerifFlowRecord(k.FlowKey()); ok {
+		o.ready = fr.ReadyToSend
+		o.filled = a.AreCorrelatedFieldsFilled(*fr)
+		o.srcDelta = agg.U64(fr.Record, "packetDeltaCountFromSourceNode")
+		o.dstDelta = agg.U64(fr.Record, "packetDeltaCountFromDestinationNode")
+		o.srcTotal = agg.U64(fr.Record, "packetTotalCountFromSourceNode")
+		o.dstTotal = agg.U64(fr.Record, "packetTotalCountFromDestinationNode")
+	}
+	return o
+}
+
+func sameOutcome(x, y outcome) bool {
+	return sx.And(x.flows == y.flows, x.heapLen == y.heapLen, x.ready == y.ready, x.filled == y.filled, x.exported == y.exported,
+		x.srcDelta == y.srcDelta, x.dstDelta == y.dstDelta, x.srcTotal == y.srcTotal, x.dstTotal == y.dstTotal)
+}
+
+// Check_Linearizable: two operations run in two goroutines under EVERY
+// interleaving of their synchronisation points (mutex lock/unlock); the final
+// state and the exports must equal those of one of the two sequential orders.
+func Check_Linearizable() {
+	k := agg.Keys[0]
+	scenario := sx.Choose("scenario", 3)
+	mk := func(who int, tag string) agg.Rec {
+		r := agg.Rec{Key: k, TCPState: "ESTABLISHED", EndReason: registry.ActiveTimeoutReason, FlowType: registry.FlowTypeInterNode, Start: 1}
+		if who == 1 {
+			r.SrcPod = "pod1"
+		} else {
+			r.DstPod = "pod2"
+		}
+		r.End = 5 + uint32(who)
+		r.Stat[0] = sx.U64(tag + "-packetTotal")
+		r.Stat[1] = sx.U64(tag + "-packetDelta")
+		return r
+	}
+	r1, r2 := mk(1, "src"), mk(2, "dst")
+	preexisting := sx.Choose("flowExistsBefore", 2) == 1
+	r0 := mk(1, "first")
+	r0.End = 2
+	run := func(order int) outcome {
+		a := agg.New(true)
+		exported := 0
+		cb := func(fk intermediate.FlowKey, r *intermediate.AggregationFlowRecord) error { exported++; return nil }
+		if preexisting {
+			a.AggregateMsgByFlowKey(agg.Message(r0))
+		}
+		if scenario == 2 {
+			a.VerifShiftDeadlines(-(agg.InactiveTimeout + agg.Tick))
+		}
+		op1 := func() { a.AggregateMsgByFlowKey(agg.Message(r1)) }
+		op2 := func() { a.AggregateMsgByFlowKey(agg.Message(r2)) }
+		switch scenario {
+		case 1:
+			op2 = func() { a.GetNumFlows(); a.GetRecords(nil) }
+		case 2:
+			op2 = func() { a.ForAllExpiredFlowRecordsDo(cb) }
+		}
+		switch order {
+		case 0:
+			op1()
+			op2()
+		case 1:
+			op2()
+			op1()
+		default:
+			var wg sync.WaitGroup
+			wg.Add(2)
+			go func() { defer wg.Done(); op1() }()
+			go func() { defer wg.Done(); op2() }()
+			wg.Wait()
+		}
+		return observe(a, k, exported)
+	}
+	s12, s21 := run(0), run(1)
+	c := run(2)
+	sx.Assert(sx.Or(sameOutcome(c, s12), sameOutcome(c, s21)), "concurrent-result-differs-from-every-sequential-order")
+	sx.Assert(c.flows == int64(c.heapLen), "held-flows-and-scheduled-entries-differ-after-concurrent-operations")
+	sx.Reach("compared")
 }
